@@ -57,6 +57,8 @@ Verdict(e) ==
                       [c |-> x[4], alarm |-> TRUE, at |-> <<x[1], x[2], x[3]>>]
        ELSE IF ~Predicted(e) THEN [c |-> "PremisePrediction", alarm |-> FALSE, at |-> <<0, 0, "">>]
        ELSE IF ~PadLenOK(e) THEN [c |-> "PaddingLength", alarm |-> FALSE, at |-> <<0, 0, "">>]
+       \* the stream was written into a file that already held e.base bytes: they are not the stream's to change
+       ELSE IF ~e.prefix_ok THEN [c |-> "FilePrefixChanged", alarm |-> FALSE, at |-> <<0, 0, "">>]
        ELSE [c |-> "ok", alarm |-> FALSE, at |-> <<0, 0, "">>]
 
 TraceInit == l = 1 /\ bad = <<>>
